@@ -363,7 +363,7 @@ prop("C09", [
      "args": {"quick": ["--timeout-ms=170000", "--deadline-s=170"],
               "thorough": ["--thorough=1", "--timeout-ms=2400000", "--deadline-s=2400"]}},
     {"name": "c09_mt_tsan", "sources": ["c09_mt.cc"], "c_sources": ["common/netgate.c"], "flavour": "tsan",
-     "args": {"quick": ["--timeout-ms=170000", "--deadline-s=170", "--last=13"],
+     "args": {"quick": ["--timeout-ms=170000", "--deadline-s=170", "--last=15"],
               "thorough": ["--thorough=1", "--timeout-ms=2400000", "--deadline-s=1800"]}},
 ],
     rule="one case = a scenario (w workers sharing one Rest::Router, c keep-alive clients x r tagged requests mixing "
@@ -375,7 +375,9 @@ prop("C09", [
          "workers yield before every mutex acquisition (interposed pthread_mutex_lock); one scenario lets the first two "
          "accept4 calls fail with EMFILE; one start-up scenario parks the endpoint's threads before their first instruction "
          "and schedules their beginning like any other step; two scenarios let every handler answer from a thread of its "
-         "own, scheduled like the framework's threads; oracle: each request exactly one response with its own tag/method/body, 405 "
+         "own, scheduled like the framework's threads; two split-reply scenarios answer in two raw transport writes (event-loop "
+         "thread, then a handler thread through the mailbox) on a connection that blocks after one write, with scheduling "
+         "points before every lock and every epoll_ctl and the last-run thread continuing for free; oracle: each request exactly one response with its own tag/method/body, 405 "
          "with the exact Allow set, no busy-wait; TSan build (raw-futex gate) must report no data race; states = nodes "
          "of the schedule tree; transitions = event-loop steps granted",
     assumptions=COMMON_ASSUME + ["interleaving granularity = one epoll_wait batch per thread, and one critical-section-to-"
